@@ -55,8 +55,8 @@ def hasNext (l r : Itr) (lsize rsize : Nat) : Res Bool :=
     if r.i < rsize then do
       let lc ← deref l.av
       let rc ← deref r.av
-      match lc, rc with
-      | .rep lnum _, .rep rnum _ => pure (lnum ≠ 0 || rnum ≠ 0)
+      match lc.asRange, rc.asRange with
+      | some (lnum, _), some (rnum, _) => pure (lnum ≠ 0 || rnum ≠ 0)
       | _, _ => pure true
     else pure false
   else pure false
@@ -66,9 +66,9 @@ def sideDone (it : Itr) (size : Nat) : Res Bool :=
   if it.i = size then pure true
   else do
     let c ← deref it.av
-    match c with
-    | .rep num _ => pure (num = 0)
-    | _ => pure false
+    match c.asRange with
+    | some (num, _) => pure (num = 0)
+    | none => pure false
 
 /-- `rtosc_arg_vals_eq_after_abort` -/
 def eqAfterAbort (l r : Itr) (lsize rsize : Nat) : Res Bool := do
@@ -95,6 +95,12 @@ def eqScalar (l r : Cell) : Res Bool :=
     | _, _ => .error .exit                             -- default: exit(1)  ('-' and unknown types)
   else pure false
 
+/-- the `case 'b'` of `rtosc_arg_vals_cmp_single` (with fix C16-blob-prefix) -/
+def blobCmp (a b : Bytes) : Int :=
+  let minlen := min a.length b.length
+  let rval := memcmpS a b minlen
+  if a.length ≠ b.length ∧ rval = 0 then (if a.length > b.length then 1 else -1) else rval
+
 /-- `rtosc_arg_vals_cmp_single` for everything but arrays -/
 def cmpScalar (l r : Cell) : Int :=
   if l.type = r.type then
@@ -112,10 +118,7 @@ def cmpScalar (l r : Cell) : Int :=
     | .str _ none, .str _ (some _) => -1
     | .str _ (some _), .str _ none => 1
     | .str _ (some a), .str _ (some b) => strcmpS a b
-    | .blob a, .blob b =>
-      let minlen := min a.length b.length
-      let rval := memcmpS a b minlen
-      if a.length ≠ b.length ∧ rval = 0 then (if a.length > b.length then 1 else -1) else rval
+    | .blob a, .blob b => blobCmp a b
     | _, _ => -1                                       -- '-' / default: rval = -1 (NDEBUG)
   else if schar l.type > schar r.type then 1 else -1
 
@@ -126,8 +129,8 @@ def eqSingle : Nat → List Cell → List Cell → Res Bool
   | fuel + 1, lp, rp => do
     let l ← deref lp
     let r ← deref rp
-    match l, r with
-    | .arr lt llen, .arr rt rlen =>
+    match l.asArr, r.asArr with
+    | some (lt, llen), some (rt, rlen) =>
       if lt ≠ rt ∧ ¬ (lt = tyT ∧ rt = tyF) ∧ ¬ (lt = tyF ∧ rt = tyT) then pure false
       else if llen < 0 ∨ rlen < 0 then .error .undef
       else eq fuel (lp.drop 1) (rp.drop 1) llen.toNat rlen.toNat
@@ -163,8 +166,8 @@ def cmpSingle : Nat → List Cell → List Cell → Res Int
   | fuel + 1, lp, rp => do
     let l ← deref lp
     let r ← deref rp
-    match l, r with
-    | .arr lt llen, .arr rt rlen =>
+    match l.asArr, r.asArr with
+    | some (lt, llen), some (rt, rlen) =>
       let ltype := normTy lt
       let rtype := normTy rt
       if ltype ≠ rtype then pure (if schar ltype > schar rtype then 1 else -1)
